@@ -58,8 +58,12 @@ theorem add_func (a b : Dec) : pureFunc "Add" [.num b] (.dec a) = some (okDec (a
   unfold pureFunc; simp [firstOfNumber, prmNumbers]
 theorem subtract_func (a b : Dec) : pureFunc "Subtract" [.num b] (.dec a) = some (okDec (a.sub b)) := by
   unfold pureFunc; simp [firstOfNumber, prmNumbers]
-theorem multiply_func (a b : Dec) : pureFunc "Multiply" [.num b] (.dec a) = some (okDec (a.mul b)) := by
-  unfold pureFunc; simp [firstOfNumber, prmNumbers]
+theorem multiply_func (a b : Dec) (h : inI32 (a.exp + b.exp) = true) : pureFunc "Multiply" [.num b] (.dec a) = some (okDec (a.mul b)) := by
+  unfold pureFunc; simp [firstOfNumber, prmNumbers, h]
+/-- a product whose exponent does not fit the 32 bits of the decimal type is an error (not a panic, not a wrong number) -/
+theorem multiply_out_of_range (a b : Dec) (h : inI32 (a.exp + b.exp) = false) : pureFunc "Multiply" [.num b] (.dec a) = some .err := by
+  unfold pureFunc; simp [firstOfNumber, prmNumbers, h]
+example : inI32 ((⟨15, -1⟩ : Dec).exp + (⟨2, 3⟩ : Dec).exp) = true := by decide
 theorem divide_func (a b : Dec) (h : b.coef ≠ 0) : pureFunc "Divide" [.num b] (.dec a) = some (okDec (a.div b)) := by
   unfold pureFunc; simp [firstOfNumber, prmNumbers, Dec.isZero, h]
 theorem modulo_func (a b : Dec) (h : b.coef ≠ 0) : pureFunc "Modulo" [.num b] (.dec a) = some (okDec (a.mod b)) := by
